@@ -25,6 +25,9 @@ def _bad(kind, enc):
         'length-past-end': e('1240') + bm([2]) + e('0912345'),
         'fixed-field-short': e('1240') + bm([3]) + e('00000'),
         'bad-date': e('1240') + bm([12]) + e('991332256199'),
+        'unknown-bit-primary-bitmap-only': e('1240') + bm([7], False) + e('0512345'),
+        'bad-value-primary-bitmap-only': e('1240') + bm([4], False) + e('00000000ABCD'),
+        'unknown-bit-no-low-elements': e('1240') + bm([9 + 2], False) + e('12345678'),
     }[kind]
 
 
@@ -149,4 +152,49 @@ def replay_twostep(pre, k, fault, enc, blocked):
     except mciipm.MciIpmDataError as e:
         if e.record_number != k:
             return True, 'bad record %d reported as %r after %d next() calls' % (k, e.record_number, pre), 'C10/two-step'
+    return False, 'ok', None
+
+
+BIG = {'MTI': '1240', 'DE54': 'A' * 999, 'DE63': 'B' * 999, 'DE72': 'C' * 999, 'DE111': 'D' * 999, 'DE127': 'E' * 999,
+       'DE123': '0001992' + 'F' * 992, 'DE124': '0002992' + 'G' * 992}
+
+
+def replay_configured_max(case, blocked, n):
+    from cardutil import mciipm, config
+    f = io.BytesIO()
+    w = mciipm.IpmWriter(f, blocked=blocked)
+    w.write({'MTI': '1240', 'DE2': '4444555566667777'})
+    if case == 'lowered-to-300':
+        w.write({'MTI': '1240', 'DE63': 'Q' * n})
+        w.write({'MTI': '1240', 'DE3': '000000'})
+        newmax = 300
+    else:
+        w.write(dict(BIG))
+        mciipm.VbsWriter.write(w, _bad('bad-mti', 'latin_1'))
+        newmax = 10000
+    w.close()
+    old = config.config.get('MAX_VBS_RECORD_LENGTH', 6000)
+    config.config['MAX_VBS_RECORD_LENGTH'] = newmax
+    got, err = [], None
+    try:
+        try:
+            for d in mciipm.IpmReader(io.BytesIO(f.getvalue()), blocked=blocked):
+                got.append(d)
+        except mciipm.MciIpmDataError as e:
+            err = e
+    finally:
+        config.config['MAX_VBS_RECORD_LENGTH'] = old
+    if case == 'lowered-to-300':
+        if 23 + n > 300:
+            if err is None or len(got) != 1:
+                return True, 'maximum lowered to 300, record 2 has %d bytes: %d delivered, error %s' % (23 + n, len(got), err is not None), 'C10/configured-max'
+            if err.record_number != 2:
+                return True, 'oversize record 2 reported as record %s' % err.record_number, 'C10/record-number'
+        elif err is not None or len(got) != 3:
+            return True, 'all records fit, %d delivered' % len(got), 'C10/configured-max'
+        return False, 'ok', None
+    if len(got) != 2:
+        return True, 'maximum raised to 10000: %d records delivered before the error (record 2 has 7034 bytes and fits)' % len(got), 'C10/configured-max'
+    if err is None or err.record_number != 3:
+        return True, 'bad record 3 reported as %s' % getattr(err, 'record_number', None), 'C10/record-number'
     return False, 'ok', None
